@@ -212,7 +212,9 @@ func execHandle(f afero.File, name string, a []string) string {
 		if k < 0 || k > n {
 			return fmt.Sprintf("badcount:%d", k)
 		}
-		return fmt.Sprintf("data:%s:%s", hx(buf[:k]), errClass(err))
+		res := fmt.Sprintf("data:%s:%s", hx(buf[:k]), errClass(err))
+		scribble(buf) // the caller owns the buffer again: what it does with it must not reach the file
+		return res
 	case "HReadAt":
 		n := atoi(a[0])
 		buf := make([]byte, n)
@@ -220,12 +222,18 @@ func execHandle(f afero.File, name string, a []string) string {
 		if k < 0 || k > n {
 			return fmt.Sprintf("badcount:%d", k)
 		}
-		return fmt.Sprintf("data:%s:%s", hx(buf[:k]), errClass(err))
+		res := fmt.Sprintf("data:%s:%s", hx(buf[:k]), errClass(err))
+		scribble(buf)
+		return res
 	case "HWrite":
-		k, err := f.Write(unhx(a[0]))
+		buf := unhx(a[0])
+		k, err := f.Write(buf)
+		scribble(buf) // a Write must not retain the caller's slice
 		return fmt.Sprintf("count:%d:%s", k, errClass(err))
 	case "HWriteAt":
-		k, err := f.WriteAt(unhx(a[0]), int64(atoi(a[1])))
+		buf := unhx(a[0])
+		k, err := f.WriteAt(buf, int64(atoi(a[1])))
+		scribble(buf)
 		return fmt.Sprintf("count:%d:%s", k, errClass(err))
 	case "HWriteString":
 		k, err := f.WriteString(string(unhx(a[0])))
@@ -295,4 +303,12 @@ func RunCase(c *Ctx, id, stack string, items []string) []string {
 	c.Case("end")
 	c.NCases++
 	return outs
+}
+
+// scribble overwrites a buffer that was handed to (or filled by) the implementation: an
+// implementation that keeps the caller's slice instead of copying shows up as changed content
+func scribble(b []byte) {
+	for i := range b {
+		b[i] = 0xEE
+	}
 }
